@@ -8,7 +8,7 @@ use serde_json::{Value, json};
 
 pub static PROP: Prop = Prop {
     id: "C14",
-    rule: "(a) histories of 5-40 operations over <= 6 variables decoded from a proptest choice vector: list / map / tuple / nested literals, aliasing by assignment, by storing inside another container, by passing to a mutating function and by capture in a mutating closure; every mutating and non-mutating function of list (push, pop, insert, remove, clear, extend, fill, resize, retain, reverse, sort, swap, transform, first, last, get, contains, is_empty, to_tuple), map (insert, remove, clear, extend, sort, get, keys, values, get_index, contains_key, update) and tuple; index and slice reads; index / slice / field assignment; `+`; copy; deep_copy; attempted mutation of tuples, strings and ranges; all variables are printed after every step and the history is compared with an abstract heap (cells with identity) in the reference interpreter. (b) laws over a 56-value boundary pool: all ordered pairs (== reflexive on NaN-free data and symmetric and equal to the structural equality of the two literals computed by the harness (type, length, element-wise, maps by key set and values), != its negation, exactly one of < == > on numbers and on strings, <= / >= consistent) and all triples of numbers and of strings (transitivity of < and ==). (c) map-key identity: all pairs of hashable pool values x map paddings {0, 1, 8, 40}: contains_key(k2) after insert(k1) <=> k1 == k2, inserting both yields one entry <=> k1 == k2, independent of padding. (d) sorting: all lists of length 0..4 and sampled lists of length 5..7 over numbers, strings, mixed int / float and duplicates through list.sort, sort with key, map.sort: the output is an ordered permutation; and all lists of length 0..4 (thorough 0..5) over values that may be incomparable (numbers, strings, null, a tuple): whether `sort` succeeds or throws, an alias of the list still holds exactly the elements it held before. Non-trivial: (a) an alias exists when a mutation happens; (b)-(d) every pair / triple / list counts once.",
+    rule: "(a) histories of 5-40 operations over <= 6 variables decoded from a proptest choice vector: list / map / tuple / nested literals, aliasing by assignment, by storing inside another container, by passing to a mutating function and by capture in a mutating closure; every mutating and non-mutating function of list (push, pop, insert, remove, clear, extend, fill, resize, retain, reverse, sort, swap, transform, first, last, get, contains, is_empty, to_tuple), map (insert, remove, clear, extend, sort, get, keys, values, get_index, contains_key, update) and tuple; index and slice reads; index / slice / field assignment; `+`; copy; deep_copy; to_list of a list / tuple bound to a new variable; attempted mutation of tuples, strings and ranges; all variables are printed after every step and the history is compared with an abstract heap (cells with identity) in the reference interpreter. (b) laws over a 56-value boundary pool: all ordered pairs (== reflexive on NaN-free data and symmetric and equal to the structural equality of the two literals computed by the harness (type, length, element-wise, maps by key set and values), != its negation, exactly one of < == > on numbers and on strings, <= / >= consistent) and all triples of numbers and of strings (transitivity of < and ==). (c) map-key identity: all pairs of hashable pool values x map paddings {0, 1, 8, 40}: contains_key(k2) after insert(k1) <=> k1 == k2, inserting both yields one entry <=> k1 == k2, independent of padding. (d) sorting: all lists of length 0..4 and sampled lists of length 5..7 over numbers, strings, mixed int / float and duplicates through list.sort, sort with key, map.sort: the output is an ordered permutation; and all lists of length 0..4 (thorough 0..5) over values that may be incomparable (numbers, strings, null, a tuple): whether `sort` succeeds or throws, an alias of the list still holds exactly the elements it held before. Non-trivial: (a) an alias exists when a mutation happens; (b)-(d) every pair / triple / list counts once.",
     assumptions: &[
         "known findings keyed by shape: C14-key-hash (an integer and the equal float as map keys), C14-order-2p53 (mixed int/float triples beyond 2^53)",
         "cyclic containers, negative indices and slice assignment beyond the list are not judged",
@@ -210,6 +210,11 @@ impl<'a> HG<'a> {
                 }
                 let i = self.s.below(self.vars.len() as u32) as usize;
                 let (n, k) = self.vars[i].clone();
+                if matches!(k, 'l' | 't') && self.s.chance(30) {
+                    // a conversion yields a new container, also when the source already has that type
+                    self.set(&target, 'l');
+                    return E::Assign(bx(id(&target)), None, bx(Self::call(&n, "to_list", vec![])));
+                }
                 self.set(&target, k);
                 if self.s.chance(50) {
                     E::Assign(bx(id(&target)), None, bx(E::Call(bx(id("copy")), vec![(id(&n), false)])))
